@@ -240,8 +240,14 @@ func (pipeline *IncrementalPipeline) sync(job *job, ctx context.Context) (int, e
 
 						local := func(workId int, lentities []*server.Entity, wg *sync.WaitGroup) {
 							res := presult{}
-							if reflect.TypeOf(pipeline.transform) == reflect.TypeOf(&JavascriptTransform{}) {
-								t := pipeline.transform.(*JavascriptTransform)
+							// an error-handler wrapper only delegates: look through it, so that a wrapped
+							// JavascriptTransform is cloned per worker too (a goja runtime is not goroutine safe)
+							transform := pipeline.transform
+							if w, ok := transform.(*wrappedTransform); ok {
+								transform = w.t
+							}
+							if reflect.TypeOf(transform) == reflect.TypeOf(&JavascriptTransform{}) {
+								t := transform.(*JavascriptTransform)
 								tc, _ := t.Clone()
 								pe, e := tc.transformEntities(runner, lentities, job.title)
 								res.entities = pe
